@@ -129,6 +129,15 @@ func Stamp(dst *model.UserRow, src *model.User) { dst.Rank = 1 }
 
 func Label(s string) string { return "audit:" + s }
 `,
+		// a package that declares the name hooks at a path that ends otherwise
+		"app/audit/hk2/hooks.go": `package hooks
+
+import "fsw/app/model"
+
+func Stamp(dst *model.UserRow, src *model.User) { dst.Rank = 3 }
+
+func Label(s string) string { return "hk2:" + s }
+`,
 		"app/storage/hooks/hooks.go": `package hooks
 
 import "fsw/app/model"
@@ -289,6 +298,31 @@ type Rows interface {
 }
 
 type Convergen interface {
+	// :typecast
+	// :skip Label
+	Pets(*Pet) *PetDTO
+}
+`))
+	// an ordinary import whose package DECLARES the name hooks, next to a blank import of another package that
+	// declares it too: in Go source `hooks.Stamp` means the ordinary import, and it means the same every time
+	ins = append(ins, mk("samename", "conv", `//go:build convergen
+
+package conv
+
+import (
+	"fsw/app/audit/hk2"
+	"fsw/app/model"
+	_ "fsw/app/storage/hooks"
+)
+
+// KeepHooks uses the ordinary import.
+var KeepHooks = hooks.Label("x")
+
+type Convergen interface {
+	// :stringer
+	// :conv hooks.Label Name
+	// :postprocess hooks.Stamp
+	ToRow(*model.User) *model.UserRow
 	// :typecast
 	// :skip Label
 	Pets(*Pet) *PetDTO
